@@ -64,8 +64,7 @@ namespace GoHeap
 def less (a : Array Entry) (i j : Nat) : Bool := decide ((a[i]!).key < (a[j]!).key)
 
 /-- `Swap(i, j)` -/
-def swap (a : Array Entry) (i j : Nat) : Array Entry :=
-  (a.setIfInBounds i a[j]!).setIfInBounds j a[i]!
+def swap (a : Array Entry) (i j : Nat) : Array Entry := a.swapIfInBounds i j
 
 /-- `heap.up(h, j)` -/
 def up (a : Array Entry) (j : Nat) : Array Entry :=
